@@ -151,6 +151,11 @@ def parallel(jobs):
 def run(ctx):
     quick = ctx.tier == "quick"
     ctx._stage_spec()
+    rd = os.path.join(core.VERIF, "replays", ctx.id)
+    if os.path.isdir(rd):               # replays of earlier runs of this tier are stale
+        for f in os.listdir(rd):
+            if f.startswith(ctx.tier + "-"):
+                os.remove(os.path.join(rd, f))
     # 1. the closed model: invariants and action properties, exhaustive
     # 2. implementation-level clean(): removal key computed from the record with prefix "sign-" (what the pinned
     #    tree did) - TLC compares it with the release the statement asks for; the counterexample is a candidate
@@ -158,7 +163,7 @@ def run(ctx):
     r, ri, sim = parallel([
         lambda: ctx.tlc("Ballotbox", "Ballotbox_mc_quick.cfg" if quick else "Ballotbox_mc_thorough.cfg", timeout=1800),
         lambda: ctx.tlc("Ballotbox", "Ballotbox_impl_clean.cfg", allow_violation=True, count=False, timeout=900, workers=4),
-        lambda: ctx.tlc_simulate("Ballotbox", "Ballotbox_sim.cfg", num=60 if quick else 800, depth=40),
+        lambda: ctx.tlc_simulate("Ballotbox", "Ballotbox_sim.cfg", num=40 if quick else 800, depth=40),
     ])
     ctx.exhaustive = True
     ctx.extra["model_states"] = r.distinct
@@ -176,8 +181,8 @@ def run(ctx):
     core.write_ndjson(sp, scripts)
     # 4. the real ballot box: the scripts, then seeded random histories (sequential / with a concurrent part)
     parts = [("model-scripts", ["run", "--in", sp]),
-             ("random-seq", ["record", "--num", 36 if quick else 600, "--len", 36, "--nmax", 9, "--conc", 0]),
-             ("random-conc", ["record", "--num", 30 if quick else 500, "--len", 24, "--nmax", 7, "--conc", 1])]
+             ("random-seq", ["record", "--num", 30 if quick else 600, "--len", 36, "--nmax", 9, "--conc", 0]),
+             ("random-conc", ["record", "--num", 24 if quick else 500, "--len", 24, "--nmax", 7, "--conc", 1])]
     traces = []
     for name, a in parts:
         t = os.path.join(ctx.work, "trace_%s.ndjson" % name)
@@ -186,12 +191,9 @@ def run(ctx):
         if m and int(m.group(1)) > 0:
             ctx.extra["unsettled_calls"] = ctx.extra.get("unsettled_calls", 0) + int(m.group(1))
         traces.append((name, t))
-    if quick:
-        # one JVM for everything: the recordings are concatenated (every history starts with a Reset; the pool and
-        # its counters are per process: the first Reset of a recording says "newproc" and the trace spec re-bases)
-        groups = [("all", [t for _, t in traces])]
-    else:
-        groups = [(n, [t]) for n, t in traces]
+    # one JVM for everything: the recordings are concatenated (every history starts with a Reset; the pool and
+    # its counters are per process: the first Reset of a recording says "newproc" and the trace spec re-bases)
+    groups = [("all", [t for _, t in traces])]
     jobs = []
     for name, files in groups:
         path = os.path.join(ctx.work, "trace_%s_cat.ndjson" % name)
@@ -199,7 +201,7 @@ def run(ctx):
             for f in files:
                 out.write(open(f).read())
         jobs.append((name, path))
-    results = parallel([(lambda n=n, p=p: validate(ctx, p, n)) for n, p in jobs]) if len(jobs) > 1 else [validate(ctx, jobs[0][1], jobs[0][0])]
+    results = [validate(ctx, p, n) for n, p in jobs]
     cex_reproduced = False
     for (name, path), (ev, res) in zip(jobs, results):
         account(ctx, ev)
